@@ -489,6 +489,39 @@ def scope_rules(ctx):
     return obs
 
 
+def mangled_declaration_rule(ctx):
+    """a scope registered through add_scope may be renamed (mangling): its declaration has to be printed with the name add_scope
+    returned, otherwise references (`{{_$0}}`) and declaration (`wx:for-item="x"` / `<wxs module="m">`) disagree"""
+    ob = ctx.ob
+    tc = ctx.tc
+    obs = []
+    k = 0
+    for f in tc.fns:
+        if not f.body or "stringify" not in f.module or f.name == "add_scope":
+            continue
+        pm = None
+        for n in sir.walk(f.body):
+            if not (n.get("k") == "mcall" and n["m"] == "add_scope" and n["args"]):
+                continue
+            k += 1
+            if pm is None:
+                pm = sir.parent_map(f.body)
+            par = pm.get(id(n))
+            # result used: bound by a let (possibly through .clone()) or passed on; discarded: an expression statement
+            cur, up = n, par
+            while up is not None and up.get("k") in ("mcall", "ref", "paren", "try") and (up.get("recv") is cur or up.get("e") is cur):
+                cur, up = up, pm.get(id(up))
+            discarded = up is not None and up.get("k") == "expr"
+            arg = sir.expr_str(sir.strip_ref(n["args"][0]))
+            what = re.sub(r"[^A-Za-z0-9_.]+", "", arg)
+            obs.append(ob("C14.scope/declared-as-returned/%s/%s" % (f.qual.split("::")[-2] + "::" + f.qual.split("::")[-1], what), not discarded, ctx.where(f),
+                          "scope `%s`: the name returned by add_scope %s" % (arg, "is kept for printing the declaration" if not discarded else "is discarded - the declaration is printed with the source name while references print the mangled one"),
+                          witness=None if not discarded else "with mangling, `<div wx:for=\"{{l}}\">{{item}}</div>` prints `{{_$0}}` under an unrenamed `wx:for`: the re-parsed template reads a data field `_$0`"))
+    if k < 3:
+        obs.append(ob("C14.floor/add_scope", False, "stringify/tag.rs", "only %d add_scope calls found (floor 3)" % k))
+    return obs
+
+
 def run(ctx):
     obs = printer_rules(ctx)
     from rules.c12 import find_escaper, check_escaper
@@ -501,6 +534,7 @@ def run(ctx):
     obs += escape_rules(ctx)
     obs += vocabulary_rules(ctx)
     obs += scope_rules(ctx)
+    obs += mangled_declaration_rule(ctx)
     n = sum(1 for o in obs if o["key"].startswith("C14.children/"))
     if n < 44:
         obs.append(ctx.ob("C14.floor/children", False, "stringify/expr.rs", "only %d variants analysed (floor 44)" % n))
